@@ -55,8 +55,8 @@ const (
 	fMalformed
 	fWrongVersion
 	fUnknownHash
-	fNoHash    // extension with a version but no hash, no text
-	fNoVersion // extension with the hash but no version, no text
+	fNoHash         // extension with a version but no hash, no text
+	fNoVersion      // extension with the hash but no version, no text
 	fNoHashText     // text + extension with a version but no hash: refused, registers nothing
 	fBlankTextHash  // white-space-only text + the hash of another text: refused (not a hash-only request)
 	fPaddedTextHash // text with leading/trailing white space + the hash of exactly those bytes: executes
